@@ -126,7 +126,7 @@ def run_chunk(binary, check, tier, seed, a, b, valgrind=False):
     while cur < b:
         rc, out, err = run_sim(binary, ["--check", check, "--tier", tier, "--seed", str(seed),
                                         "--runs", "%d:%d" % (cur, b)], valgrind=valgrind,
-                               timeout=1200 if not valgrind else 3600)
+                               timeout=180 if not valgrind else 1800)
         runs, summaries, begun, dead, ended = parse_lines(out)
         res["runs"] += runs
         res["summaries"] += summaries
